@@ -1,12 +1,75 @@
 /- Drv/C03.lean — driver handler for property C03 (line protocol; core-only imports). -/
 import FunsorVerif.Core.Sexp
 import FunsorVerif.Core.XR
+import FunsorVerif.Model.TermParse
+import FunsorVerif.Model.C03
 namespace FV.Drv.C03
-open FV
+open FV FV.C03
 
-/-- `args` are the top-level S-expressions following the property tag on the request line. -/
+def parseGraph (s : Sexp) : Option Graph := do
+  let xs ← s.asList?
+  xs.mapM fun x => match x with
+    | Sexp.list [i, ks] => do pure ((← i.asNat?), (← ks.asNats?))
+    | _ => none
+
+def parseReqs (s : Sexp) : Option (List (Nat × Nat)) := do
+  let xs ← s.asList?
+  xs.mapM fun x => match x with
+    | Sexp.list [c, k] => do pure ((← c.asNat?), (← k.asNat?))
+    | _ => none
+
+def parseIns (s : Sexp) : Option (List (Name × Nat)) := do
+  let xs ← s.asList?
+  xs.mapM fun x => match x with
+    | Sexp.list [n, k] => do pure ((← n.asStr?), (← k.asNat?))
+    | _ => none
+
+def showResp : Option ((Nat × Nat) × Nat) → Sexp
+  | some ((c, k), src) => Sexp.list [Sexp.ofNat c, Sexp.ofNat k, Sexp.ofNat src]
+  | none => Sexp.atom "none"
+
+/--
+  C03 denote TERM (("n" size)*) ENV          textbook value table (shared handler)
+  C03 refold TERM (("n" size)*) ENV          table of `reRec constFold TERM` (a sound interpretation applied bottom-up)
+  C03 anf ROOT ((id (kid*))*)                `anf` on the identity graph: `ok (order*) topo-flag tree-calls`
+  C03 memo real|full ((cls key)*)            Memoize state machine on a history of requests; the base returns
+                                             its own request (cls key); answer per request: (cls key src) where src
+                                             is the index of the request that computed the returned object
+  C03 seqreduce OP TERM (("n" size)*) INS ENV   table of the term `sequential_reduce` builds, or `ok defer`
+  C03 collide                                candidate pairs of the generated class table are answered by the
+                                             harness from Gen/C03ClassTable (see Props); not a driver request
+-/
 def handle (args : List Sexp) : String :=
   match args with
-  | _ => "err unimplemented"
+  | Sexp.atom "denote" :: rest => (handleDenote rest).getD "err bad-args"
+  | [Sexp.atom "refold", t, ins, env] =>
+    match parseTerm t, parseIns ins, parseEnv env with
+    | some t, some ins, some env => "ok " ++ toString (tableToSexp (denoteTable (reRec constFold t) ins env))
+    | _, _, _ => "err bad-args"
+  | [Sexp.atom "anf", root, g] =>
+    match root.asNat?, parseGraph g with
+    | some root, some g =>
+      match anf g root with
+      | some order =>
+        "ok " ++ toString (Sexp.list [Sexp.ofNats order, Sexp.ofBool (topoIds g order root),
+                                      Sexp.ofNat (treeCalls g (fun _ => true) (g.length + 1) root)])
+      | none => "ok none"
+    | _, _ => "err bad-args"
+  | [Sexp.atom "memo", Sexp.atom kind, reqs] =>
+    match parseReqs reqs with
+    | some reqs =>
+      let base : Nat → Nat → Option (Nat × Nat) := fun c k => some (c, k)
+      let out := if kind == "real" then runMemo (realKey (C := Nat)) base 0 [] reqs
+                 else (runMemo (fullKey (C := Nat) (A := Nat)) base 0 [] reqs)
+      "ok " ++ toString (Sexp.list (out.map showResp))
+    | none => "err bad-args"
+  | [Sexp.atom "seqreduce", Sexp.atom op, t, vars, ins, env] =>
+    match parseTerm t, parseIns vars, parseIns ins, parseEnv env with
+    | some t, some vars, some ins, some env =>
+      match seqReduce op t vars with
+      | some s => "ok " ++ toString (tableToSexp (denoteTable s ins env))
+      | none => "ok defer"
+    | _, _, _, _ => "err bad-args"
+  | _ => "err bad-request"
 
 end FV.Drv.C03
